@@ -1128,7 +1128,7 @@ def _min(ex, st, c, args, dty):
 @reg("panicking::panic", "panicking::panic_fmt", "panicking::panic_explicit", "panicking::unreachable_display",
      "panicking::panic_display", "panicking::begin_panic", "rt::begin_panic", "panicking::panic_nounwind",
      "panicking::assert_failed", "option::unwrap_failed", "result::unwrap_failed", "option::expect_failed",
-     "panicking::panic_bounds_check", "slice::index::slice_end_index_len_fail", "core::panicking::panic", "panic_fmt")
+     "panicking::panic_bounds_check", "slice::index::slice_end_index_len_fail", "core::panicking::panic", "panic_fmt", "panic", "unreachable_display", "panic_display", "panic_explicit")
 def _panic(ex, st, c, args, dty):
     msg = "panic"
     if args and isinstance(args[0], LibV) and args[0].kind in ("fmtlit", "fmtargs"):
@@ -1343,6 +1343,11 @@ def _iter_map(ex, st, c, args, dty):
     return LibV("map", (args[0], args[1]))
 
 
+@reg_pred(lambda c: c.trait is not None and _type_head(c.trait) == "Iterator" and c.method in ("flat_map", "filter_map"))
+def _iter_flat_map(ex, st, c, args, dty):
+    return LibV("flatmap", (args[0], args[1]))
+
+
 def _force_iter(ex, st, it):
     """-> Forked-style list [(State, Arr|Bytes)] of the fully evaluated element sequence."""
     it = deref(ex, st, it)
@@ -1369,6 +1374,23 @@ def _force_iter(ex, st, it):
                         partial.append((s2, acc))
             for s1, acc in partial:
                 res.append((s1, Arr(tuple(acc))))
+        return res
+    if isinstance(it, LibV) and it.kind == "flatmap":
+        # flat_map(f) = map(f) followed by flattening every produced item (Result / Option / sequence) into the stream
+        res = []
+        for s0, items in _force_iter(ex, st, LibV("map", it.data)):
+            if isinstance(items, Panic):
+                res.append((s0, items))
+                continue
+            out = []
+            for r in _as_arr(items).elems:
+                if isinstance(r, Adt) and r.variant in ("Ok", "Some"):
+                    out.append(r.fields[0])
+                elif isinstance(r, Adt) and r.variant in ("Err", "None"):
+                    continue
+                else:
+                    out += list(_as_arr(_iter_items(ex, s0, r)).elems)
+            res.append((s0, Arr(tuple(out))))
         return res
     if isinstance(it, VecV):
         return [(st, it.items)]
@@ -1569,7 +1591,7 @@ def _fmt_arguments_new(ex, st, c, args, dty):
     return LibV("fmtargs", (tmpl, a))
 
 
-@reg("Arguments::from_str", "Arguments::new_const")
+@reg("Arguments::from_str", "Arguments::new_const", "Arguments::from_str_nonconst")
 def _fmt_arguments_from_str(ex, st, c, args, dty):
     # a literal without placeholders: the argument is the text itself, not an encoded template
     return LibV("fmtlit", deref(ex, st, args[0]))
